@@ -2,6 +2,7 @@ package rules
 
 import (
 	"fmt"
+	"go/token"
 	"go/types"
 	"strings"
 
@@ -35,6 +36,7 @@ func init() {
 			c11HeadEnd(c)
 			c11SniffSnapshot(c)
 			c11DebugDialerWrap(c)
+			c11DebugDialerRebind(c)
 			parserHelperRules(c, "C11")
 			// the debug dialer sees the handshake through WrapConn: it must wrap the outermost connection
 			c20DialConn(c)
@@ -688,4 +690,107 @@ func c11DebugDialerWrap(c *Ctx) {
 	}
 	c.R.AddCells(len(paths))
 	c.verdict(rule, rule+"/DebugDialer.Dial", c.P.FuncPos(fn), uniq(problems), fmt.Sprintf("%d paths: with and without a user WrapConn, with and without OnRequest / OnResponse", n))
+}
+
+// c11DebugDialerRebind: DebugDialer.Dial re-points the buffered reader it got
+// from the dialer at the raw connection, putting the bytes it sniffed after the
+// response head in front. Those bytes exist only when OnResponse is set (the
+// sniffing reader is installed only then): without it a Reset would throw away
+// what the dialer had buffered. So every (*bufio.Reader).Reset in Dial sits on
+// the OnResponse != nil side of a test of that field.
+func c11DebugDialerRebind(c *Ctx) {
+	const rule = "C11.debug-dialer-rebind"
+	c.R.Rule(rule, 1, "DebugDialer.Dial resets the returned buffered reader only where OnResponse is set (where the sniffed bytes that replace its contents exist)")
+	f := c.method(rule, wsutil, "DebugDialer", "Dial")
+	if f == nil {
+		return
+	}
+	isOnResponse := func(v ssa.Value) bool {
+		// a load of the OnResponse field, possibly through a local copy (phi-free: the tree
+		// reads the field into a local and tests that)
+		for i := 0; i < 4; i++ {
+			switch x := v.(type) {
+			case *ssa.UnOp:
+				if fa, ok := x.X.(*ssa.FieldAddr); ok {
+					if st, ok := fa.X.Type().Underlying().(*types.Pointer).Elem().Underlying().(*types.Struct); ok {
+						return st.Field(fa.Field).Name() == "OnResponse"
+					}
+				}
+				return false
+			case *ssa.ChangeType:
+				v = x.X
+			default:
+				return false
+			}
+		}
+		return false
+	}
+	var okBlocks []*ssa.BasicBlock
+	fns := append([]*ssa.Function{f}, f.AnonFuncs...)
+	for _, b := range f.Blocks {
+		if len(b.Instrs) == 0 {
+			continue
+		}
+		iff, ok := b.Instrs[len(b.Instrs)-1].(*ssa.If)
+		if !ok {
+			continue
+		}
+		bo, ok := iff.Cond.(*ssa.BinOp)
+		if !ok || !(isOnResponse(bo.X) || isOnResponse(bo.Y)) {
+			continue
+		}
+		switch bo.Op {
+		case token.NEQ:
+			okBlocks = append(okBlocks, b.Succs[0])
+		case token.EQL:
+			okBlocks = append(okBlocks, b.Succs[1])
+		}
+	}
+	n := 0
+	var problems []string
+	// Reset calls in Dial itself and in the unexported helpers only it calls
+	seen := map[*ssa.Function]bool{}
+	var scan func(fn *ssa.Function, guarded bool, depth int)
+	scan = func(fn *ssa.Function, guarded bool, depth int) {
+		if fn == nil || fn.Blocks == nil || depth > 3 || seen[fn] && !guarded {
+			return
+		}
+		seen[fn] = true
+		for _, b := range fn.Blocks {
+			for _, in := range b.Instrs {
+				call, ok := in.(ssa.CallInstruction)
+				if !ok {
+					continue
+				}
+				g := guarded
+				if fn == f {
+					g = false
+					for _, ob := range okBlocks {
+						if len(ob.Preds) == 1 && ob.Dominates(b) {
+							g = true
+						}
+					}
+				}
+				cal := call.Common().StaticCallee()
+				if cal == nil {
+					continue
+				}
+				if cal.String() == "(*bufio.Reader).Reset" {
+					n++
+					if !g {
+						problems = append(problems, "the buffered reader is reset at "+c.P.Pos(call.Pos())+" where OnResponse may be nil: nothing was sniffed then, and what the dialer had buffered after the response head is thrown away")
+					}
+				} else if load.InModule(cal) && cal.Pkg == f.Pkg && !cal.Object().Exported() {
+					scan(cal, g, depth+1)
+				}
+			}
+		}
+	}
+	_ = fns
+	scan(f, false, 0)
+	if n == 0 {
+		c.R.Unknown(rule, rule+"/DebugDialer.Dial", c.P.FuncPos(f), "no (*bufio.Reader).Reset is found in DebugDialer.Dial any more: how the returned reader is re-pointed is not recognisable")
+		return
+	}
+	c.verdict(rule, rule+"/DebugDialer.Dial", c.P.FuncPos(f), uniq(problems), fmt.Sprintf("%d reset(s), each behind OnResponse != nil", n))
 }
